@@ -101,6 +101,21 @@ def check_axes(ctx, sgz, il, xl, samples, tracecount, desc, what='converted file
     with seismic_zfp.open(sgz) as f:
         if list(map(int, f.ilines)) != list(il) or list(map(int, f.xlines)) != list(xl) or len(f.samples) != len(samples):
             probs.append('emulator ilines/xlines/samples differ from the source')
+    # the same file behind a blob client, while a reader on a *different* blob of the same name (another container) is
+    # open: the axes are those of the file that is read
+    from .. import iolog, synth
+    decoy_path = ctx.path('decoy_other_container.sgz')
+    if not os.path.exists(decoy_path):
+        synth.make(decoy_path, (3, 4, 5), (4, 4, 512), 16, np.random.default_rng(5), il=(7000, 10), xl=(90, -2), z=(12, 3000))
+    decoy_blob, blob = iolog.LoggedBlob(decoy_path), iolog.LoggedBlob(sgz)
+    decoy_blob.blob_name = blob.blob_name = 'survey.sgz'
+    with SgzReader(decoy_blob) as other:
+        with SgzReader(blob) as r:
+            if list(map(int, r.ilines)) != list(il) or list(map(int, r.xlines)) != list(xl) or len(r.zslices) != len(samples) \
+                    or r.tracecount != tracecount:
+                probs.append('through a blob client (another blob of the same name open): axes / trace count differ from the source')
+        if list(map(int, other.ilines)) != [7000, 7010, 7020]:
+            probs.append('a reader on another blob of the same name changed its axes')
     for p in probs:
         ctx.fail(f'{what}: {p}', desc)
     return not probs
